@@ -571,7 +571,7 @@ func genJudge(w *Worker, id string, o *obs, variants []string) {
 					bad("sentence-rejected", v, in, "the grammar is LALR(1) and derives this string, the parser answers "+r.Class+" "+r.Panic, nil)
 				}
 			case "C06":
-				if r.Class == "crash" || r.Class == "nil" {
+				if r.Class == "crash" || r.Class == "nil" || r.Class == "hang" {
 					bad("undocumented-failure", v, in, "the parser fails with "+r.Class+": "+r.Panic, nil)
 				} else if o.tbl.ConflictFree && !infos[i].member {
 					if r.Class != "syntax-error" {
